@@ -57,6 +57,8 @@ type Contract struct {
 	HavocPreserves []string // struct types (pkg.Type) assumed not to be written by uncontracted callees
 	SweepFn        *ssa.Function // synthetic contract of `gowp sweep`: the function itself
 	NonNil         []string // callees whose first result is assumed non-nil
+	OnlyCalls      []string // only_calls P1, P2: every call site of the function's own body matches one of the patterns
+	Snaps          []*Clause // snap[COUNTER:name] expr: ghost record of expr's value in the state right before each call COUNTER watches
 	PropOnly       map[string]string // clause label / "count[name]" -> the only property it is generated for
 	// contracts on function literals ("Parent$N")
 	IsClosure    bool
@@ -113,7 +115,7 @@ func (cf *ContractFile) expand(s string) string {
 // expandAll applies macros to every clause of the file.
 func (cf *ContractFile) expandAll() {
 	for _, c := range cf.Contracts {
-		for _, l := range [][]*Clause{c.Requires, c.Givens, c.Assumes, c.Ensures, c.Invariants} {
+		for _, l := range [][]*Clause{c.Requires, c.Givens, c.Assumes, c.Snaps, c.Ensures, c.Invariants} {
 			for _, cl := range l {
 				cl.Text = cf.expand(cl.Text)
 			}
@@ -318,6 +320,24 @@ func parseContractFile(path string) (*ContractFile, error) {
 						cur.PropOnly[m] = strings.TrimSpace(rest[:i])
 					}
 				}
+			case "only_calls":
+				// only_calls P1, P2, ...: a structural frame - the function's own body calls nothing but callees
+				// matching these patterns (builtins and conversions aside); any other call site is a violation
+				for _, m := range splitTop(rest, ',') {
+					if m = strings.TrimSpace(m); m != "" {
+						cur.OnlyCalls = append(cur.OnlyCalls, m)
+					}
+				}
+				lastList = &cur.OnlyCalls
+			case "snap":
+				// snap[COUNTER:name] expr - ghost state: the value of expr (over the function's parameters) in the state
+				// right before every call the ghost counter COUNTER watches; read in clauses as snap("name")
+				if !strings.Contains(label, ":") {
+					return nil, fmt.Errorf("%s:%d: snap[COUNTER:name] expr", path, ln)
+				}
+				c := &Clause{Kind: word, Label: label, Text: rest, Line: ln, File: path}
+				cur.Snaps = append(cur.Snaps, c)
+				lastClause = c
 			case "nonnil":
 				// nonnil PATTERN, ...: the (first) result of these callees is never nil - an assumption about code
 				// outside the contract, listed in the evidence
@@ -533,7 +553,7 @@ func rewriteSpec(s string) (string, error) {
 	return out, nil
 }
 
-var callsRe = regexp.MustCompile(`(^|[^\w.])(calls|lastargn|lastarg|lastresn|lastres|nthres|same|raw|fst3|snd3|thd3|fst|snd|le64|haskey|allocated|base)\(`)
+var callsRe = regexp.MustCompile(`(^|[^\w.])(calls|snap|lastargn|lastarg|lastresn|lastres|nthres|same|raw|fst3|snd3|thd3|fst|snd|le64|haskey|allocated|base)\(`)
 var istypeRe = regexp.MustCompile(`(^|[^\w.])(istype|ptr|resval|argval)\[`)
 var oldRe = regexp.MustCompile(`(^|[^\w.])old\(`)
 var freshRe = regexp.MustCompile(`(^|[^\w.])fresh\(`)
